@@ -907,10 +907,13 @@ def lit_exits(b, an, bad, what, end_ok, value_ok, test_ok):
             bad('S-literal', f'{what}: {len(ts)} decisions on the path to an exit, expected exactly one match test')
             continue
         test, outcome = ts[0][1], ts[0][2]
-        if not test_ok(test):
+        verdict = test_ok(test)
+        if not verdict:
             bad('S-literal', f'{what}: the match test is {fmt(test)[:200]}, which is not one of the '
                              f'accepted matcher idioms for this literal')
             continue
+        if verdict == 'neg':
+            outcome = not outcome       # the test is the negation of "matched" (`m is None`)
         if outcome:
             n_ok += 1
             if s.st is not True:
@@ -986,18 +989,26 @@ def spec_regex(b, an, bad):
 
     holder = {}
 
+    def unwrap(t):
+        """`m`, `m is not None`, `m is None` -> (m, polarity)"""
+        if isinstance(t, tuple) and t[:1] == ('CMP',) and len(t) == 4 and t[1] in (('IsNot',), ('Is',)) \
+                and NONE in (t[2], t[3]):
+            return (t[2] if t[3] == NONE else t[3]), t[1] == ('IsNot',)
+        return t, True
+
     def test_ok(t):
-        if matcher_ok(t):
-            holder['m'] = t
-            return True
+        m, pos = unwrap(t)
+        if matcher_ok(m):
+            holder['m'] = m
+            return True if pos else 'neg'
         return False
 
     # the end/value terms depend on the match term; validate after the test was seen
     exits = an.exits
     for s in exits:
         ts = hist_tests(s.hist)
-        if len(ts) == 1 and matcher_ok(ts[0][1]):
-            holder['m'] = ts[0][1]
+        if len(ts) == 1 and matcher_ok(unwrap(ts[0][1])[0]):
+            holder['m'] = unwrap(ts[0][1])[0]
     m = holder.get('m')
     ends = [('CALL', ('ATTR', m, 'end'))] if m else []
     vals = [('CALL', ('ATTR', m, 'group'), const(0)), ('CALL', ('ATTR', m, 'group')),
